@@ -69,7 +69,7 @@ Qed.
    "all plain" we need every listed entry plain, which holds because entries are only written by dict_set with
    Plain values: keep it as a separate invariant on the raw lists *)
 Lemma pop_S : forall s i, SInv s -> pop s i = s.
-Proof. intros s i H. unfold pop. apply report_unused_plain. intros k e Hin. eapply (sv_raw s H). exact Hin. Qed.
+Proof. reflexivity. Qed.
 
 Lemma dict_set_In : forall d k v k' e, In (k', e) (dict_set d k v) -> In (k', e) d \/ (k' = k /\ e = v) \/ (exists k0, dotted_eqb k k0 = true /\ k' = k0 /\ e = v).
 Proof.
@@ -197,4 +197,44 @@ Proof.
     apply Nat.eqb_eq in E2. unfold delayed_id in E2. lia.
   - congruence.
   - intros j k e. rewrite Hsd by assumption. destruct (Nat.eqb j (next_id s)). apply Hp. apply sv_raw0.
+Qed.
+
+
+(* the same for a scope of any non-class kind (the copies made by clone_top have kind KClone) *)
+Lemma scope_dict_new_k : forall s k c j, fresh s ->
+  scope_dict (snd (new_scope s k c)) j = if Nat.eqb j (next_id s) then c else scope_dict s j.
+Proof.
+  intros s k c j Hf. pose proof (new_scope_spec s k c Hf) as H.
+  destruct (new_scope s k c) as [i s'] eqn:E. cbn [snd]. destruct H as (-> & _ & _ & Hg & _).
+  unfold scope_dict. rewrite Hg. destruct (Nat.eqb j (next_id s)); reflexivity.
+Qed.
+Lemma new_scope_fields_k : forall s k c,
+  fst (new_scope s k c) = next_id s /\
+  next_id (snd (new_scope s k c)) = S (next_id s) /\
+  missing (snd (new_scope s k c)) = missing s /\ deferred (snd (new_scope s k c)) = deferred s /\
+  in_fd (snd (new_scope s k c)) = in_fd s /\ lineno (snd (new_scope s k c)) = lineno s /\
+  in_cd (snd (new_scope s k c)) = in_cd s.
+Proof. intros. unfold new_scope. cbn. auto 10. Qed.
+Lemma SInv_new_k : forall s k c, SInv s -> k <> KClass ->
+  (forall key e, In (key, e) c -> e = Plain) -> rootclosed c -> dict_has c [n_star] = false ->
+  SInv (snd (new_scope s k c)).
+Proof.
+  intros s k c H Hk Hp Hr Hs. pose proof (new_scope_spec s k c (sv_fresh s H)) as Hn.
+  pose proof (scope_dict_new_k s k c) as Hsd.
+  destruct (new_scope_fields_k s k c) as (_ & Enx & _ & _ & _ & _ & Ecd).
+  destruct (new_scope s k c) as [i s'] eqn:E. cbn [snd] in *. destruct Hn as (-> & Hf' & _ & Hg & _).
+  destruct H. constructor; auto.
+  - intros j key e. rewrite Hsd by assumption. destruct (Nat.eqb j (next_id s)); [|apply sv_plain0].
+    intro Hg'. destruct (dict_get c key) eqn:E2; try discriminate. injection Hg' as <-.
+    clear - E2 Hp. induction c as [|[k0 v0] c IH]; cbn in E2. discriminate.
+    destruct (dotted_eqb key k0). injection E2 as <-. eapply Hp. left; reflexivity.
+    apply IH; auto. intros k' e' Hin. eapply Hp. right; exact Hin.
+  - intro j. rewrite Hsd by assumption. destruct (Nat.eqb j (next_id s)); auto.
+  - lia.
+  - intro j. unfold has. rewrite Hsd by assumption. destruct (Nat.eqb j (next_id s)); auto. apply sv_nostar0.
+  - intro j. unfold scope_is_class. rewrite Hg. destruct (Nat.eqb j (next_id s)). destruct k; cbn; congruence. apply sv_nocls0.
+  - rewrite Hsd by assumption. destruct (Nat.eqb delayed_id (next_id s)) eqn:E2; auto.
+    apply Nat.eqb_eq in E2. unfold delayed_id in E2. lia.
+  - congruence.
+  - intros j key e. rewrite Hsd by assumption. destruct (Nat.eqb j (next_id s)). apply Hp. apply sv_raw0.
 Qed.
